@@ -108,6 +108,17 @@ def run_batch(args):
                 mplan, mv = Minimiser(ev, plan, v, budget_s=args.get("minimise_s", 60)).run()
                 path = write_replay(mplan, mv, mv["property"])
                 ok, log = confirm_replay(path)
+                if not ok:
+                    # the minimised history does not reproduce in a fresh process: fall back to the history as found
+                    ev.stats.inc("minimised_replay_not_reproducing")
+                    path2 = write_replay(plan, v, v["property"])
+                    ok2, log2 = confirm_replay(path2)
+                    if ok2:
+                        try:
+                            os.remove(path)
+                        except OSError:
+                            pass
+                        mplan, mv, path, ok, log = plan, v, path2, ok2, log2
                 rec = {"run_seed": run_seed, "verdict": mv, "replay": path, "confirmed": ok, "ops": len(mplan["ops"]),
                        "orig_ops": len(plan["ops"]), "compact": compact_plan(mplan, 2000)}
                 if not ok:
